@@ -711,6 +711,160 @@ theorem same_localSound (n : Nat) (b : BSpec Rat) (h : ∀ w, b.localized w none
 example (n : Nat) (choices : List Seq) (l : Loc) : C02.LocalSound n evB lzB iniB (.enforceChoice choices l) :=
   same_localSound n _ (fun _ => rfl)
 
+/-! ### AvoidStopCodons (forward / unstranded location of whole codons): codon-snapped localization -/
+
+/-- the codon translates and is not a stop -/
+def CodonOk (t : Gen.CodonTable) (c : Seq) : Prop := ∃ x, translateCodon t c = some x ∧ x ≠ '*'
+
+theorem translateCodons_ok_iff (t : Gen.CodonTable) (cs : List Seq) :
+    (∃ got, translateCodons t cs = some got ∧ '*' ∉ got) ↔ ∀ c ∈ cs, CodonOk t c := by
+  induction cs with
+  | nil => simp [translateCodons]
+  | cons c cs ih =>
+    simp only [translateCodons, List.mem_cons, forall_eq_or_imp]
+    constructor
+    · rintro ⟨got, hg, hn⟩
+      cases hc : translateCodon t c with
+      | none => simp [hc] at hg
+      | some x =>
+        cases hr : translateCodons t cs with
+        | none => simp [hc, hr] at hg
+        | some r =>
+          simp only [hc, hr, Option.some.injEq] at hg
+          subst hg
+          simp only [List.mem_cons, not_or] at hn
+          exact ⟨⟨x, hc, fun h => hn.1 h.symm⟩, ih.1 ⟨r, hr, hn.2⟩⟩
+    · rintro ⟨⟨x, hx, hne⟩, hall⟩
+      obtain ⟨r, hr, hnr⟩ := ih.2 hall
+      refine ⟨x :: r, by simp [hx, hr], ?_⟩
+      simp only [List.mem_cons, not_or]
+      exact ⟨fun h => hne h.symm, hnr⟩
+
+theorem win_split {α : Type} (s : List α) (a k l : Nat) : win s a (k + l) = win s a k ++ win s (a + k) l := by
+  simp only [win]
+  rw [List.take_add, List.drop_drop]
+
+theorem chunk3_win (s : Seq) (a m : Nat) (h : a + 3 * m ≤ s.length) :
+    chunk3 (win s a (3 * m)) = (List.range m).map (fun j => win s (a + 3 * j) 3) := by
+  induction m generalizing a with
+  | zero => simp [win, chunk3]
+  | succ m ih =>
+    have e : 3 * (m + 1) = 3 + 3 * m := by omega
+    rw [e, win_split, C19.chunk3_append3 _ _ (by simp only [win, List.length_take, List.length_drop]; omega),
+      ih (a + 3) (by omega), List.range_succ_eq_map, List.map_cons, List.map_map]
+    congr 1
+    apply List.map_congr_left
+    intro j _
+    simp only [Function.comp]
+    congr 1
+    omega
+
+theorem star_filter_zero (got : Seq) :
+    ((List.range got.length).filter (fun i => got[i]? == some '*')).length = 0 ↔ '*' ∉ got := by
+  rw [filter_range_length_zero]
+  constructor
+  · intro h hm
+    obtain ⟨i, hi, hget⟩ := List.getElem_of_mem hm
+    have := h i hi
+    simp [List.getElem?_eq_getElem hi, hget] at this
+  · intro h i hi
+    cases hg : got[i]? with
+    | none => simp
+    | some x =>
+      have hx : x ∈ got := List.mem_of_getElem? hg
+      have : x ≠ '*' := fun e => h (e ▸ hx)
+      simp [this]
+
+/-- `AvoidStopCodons` on whole codons `[a, a+3m)` (forward / unstranded) passes exactly when every
+    codon of the frame translates to something that is not a stop -/
+theorem stopCodons_passes_iff (tbl : Nat) (t : Gen.CodonTable) (ht : tableOf tbl = some t) (a m : Nat) (st : Int)
+    (hst : st ≠ -1) (s : Seq) (hb : a + 3 * m ≤ s.length) :
+    PassesB (.stopCodons tbl ⟨a, (a + 3 * m : Nat), st⟩) s ↔ ∀ j, j < m → CodonOk t (win s (a + 3 * j) 3) := by
+  have hsub : (⟨(a : Int), ((a + 3 * m : Nat) : Int), st⟩ : Loc).extract s = some (win s a (3 * m)) := by
+    have : (st == -1) = false := by simp [hst]
+    simp only [Loc.extract, this, Bool.false_eq_true, if_false, C15.pySlice_nat' s a (a + 3 * m) (by omega) hb, win]
+    congr 2
+    omega
+  have hall : (∀ c ∈ chunk3 (win s a (3 * m)), CodonOk t c) ↔ ∀ j, j < m → CodonOk t (win s (a + 3 * j) 3) := by
+    rw [chunk3_win s a m hb]
+    simp only [List.mem_map, List.mem_range, forall_exists_index, and_imp]
+    constructor
+    · intro h j hj; exact h _ j hj rfl
+    · rintro h c j hj rfl; exact h j hj
+  rw [← hall, ← translateCodons_ok_iff]
+  simp only [PassesB, evaluate, ht, hsub, translate, Bool.false_and, Bool.false_eq_true, if_false]
+  constructor
+  · rintro ⟨e, he, hsc⟩
+    cases hg : translateCodons t (chunk3 (win s a (3 * m))) with
+    | none => simp [hg] at he
+    | some got =>
+      simp only [hg, Option.some.injEq] at he
+      rw [← he] at hsc
+      refine ⟨got, rfl, ?_⟩
+      rw [← star_filter_zero]
+      exact (C10.ofInt_neg_nonneg_iff _).1 hsc
+  · rintro ⟨got, hg, hn⟩
+    simp only [hg]
+    refine ⟨_, rfl, ?_⟩
+    simp only [NumK.ofInt]
+    rw [C10.ofInt_neg_nonneg_iff, star_filter_zero]
+    exact hn
+
+/-- **C08, first clause, for AvoidStopCodons** (whole codons `[a, a+3m)` on the forward strand or
+    unstranded, any genetic table, any window, any edit confined to the window): the localization the
+    code builds — the window snapped outwards to codon boundaries with the `int(x/3)` arithmetic of
+    `CodonSpecification.localized` — is sound -/
+theorem stopCodons_soundAt (tbl : Nat) (tb : Gen.CodonTable) (ht : tableOf tbl = some tb) (a m wa wb : Nat) (st ws : Int)
+    (hst : st ≠ -1) (s t : Seq) (hb : a + 3 * m ≤ s.length) (rh : Option Bool) :
+    SoundAt (.stopCodons tbl ⟨a, (a + 3 * m : Nat), st⟩) ⟨wa, wb, ws⟩ rh s t := by
+  intro hp hag0 hl
+  have hag : AgreeOutside wa wb s t := hag0
+  have hbt : a + 3 * m ≤ t.length := by rw [← hag.1]; exact hb
+  by_cases hw : wa < wb
+  case neg =>
+    -- an empty window: nothing was edited
+    have : s = t := List.ext_getElem? (fun i => hag.2 i (by omega))
+    rw [← this]; exact hp
+  rw [stopCodons_passes_iff tbl tb ht a m st hst s hb] at hp
+  rw [stopCodons_passes_iff tbl tb ht a m st hst t hbt]
+  intro j hj
+  by_cases hin : wa < a + 3 * j + 3 ∧ a + 3 * j < wb
+  · -- the codon meets the window: it belongs to the localized specification
+    have hov : max a wa < min (a + 3 * m) wb := by omega
+    have hst' : (st != -1) = true := by simp [hst]
+    simp only [localized, overlap_nat a (a + 3 * m) wa wb st ws hov] at hl
+    -- the codon window, in natural numbers
+    have hnl : (codonWindow (⟨(a : Int), ((a + 3 * m : Nat) : Int), st⟩ : Loc)
+          ⟨((max a wa : Nat) : Int), ((min (a + 3 * m) wb : Nat) : Int), st⟩).1 =
+        ⟨((a + 3 * ((max a wa - a) / 3) : Nat) : Int),
+         ((a + 3 * ((max a wa - a) / 3) + 3 * (min m ((min (a + 3 * m) wb - a - 1) / 3 + 1) - (max a wa - a) / 3) : Nat) : Int), st⟩ := by
+      simp only [codonWindow, hst', if_true, Loc.mk.injEq, and_true]
+      constructor <;> omega
+    rw [hnl] at hl
+    have hl' := (stopCodons_passes_iff tbl tb ht _ _ st hst t (by omega)).1 hl
+    have := hl' (j - (max a wa - a) / 3) (by omega)
+    have e : a + 3 * ((max a wa - a) / 3) + 3 * (j - (max a wa - a) / 3) = a + 3 * j := by omega
+    rw [e] at this
+    exact this
+  · -- the codon misses the window: unchanged
+    have hwin : win s (a + 3 * j) 3 = win t (a + 3 * j) 3 := by
+      apply win_eq_of_agree s t wa wb hag
+      omega
+    rw [← hwin]
+    exact hp j hj
+
+/-- `AvoidStopCodons` (whole codons, forward / unstranded, inside the sequence) satisfies the hypothesis
+    of `C02.optimize_preserves_feasible` -/
+theorem stopCodons_localSound (n tbl : Nat) (tb : Gen.CodonTable) (ht : tableOf tbl = some tb) (a m : Nat) (st : Int)
+    (hst : st ≠ -1) (hb : a + 3 * m ≤ n) :
+    C02.LocalSound n evB lzB iniB (.stopCodons tbl ⟨a, (a + 3 * m : Nat), st⟩) := by
+  apply localSound_of_soundAt
+  · intro w
+    simp only [localized]
+    split <;> simp
+  · intro wa wb s t hn
+    exact stopCodons_soundAt tbl tb ht a m wa wb st 0 hst s t (by omega) none
+
 /-! ### the closed statement for problems made of built-in constraints
 
 The hypotheses of `C02.optimize_preserves_feasible` are met by the built-in model itself: the
@@ -754,16 +908,19 @@ inductive Proven (n : Nat) : BSpec Rat → Prop where
       (hlen : target.length = b - a) : Proven n (.avoidChanges 0 target (.loc ⟨a, b, st⟩))
   | enforceSequence (sq : Seq) (a b : Nat) (st : Int) (hst : st ≠ -1) (hab : a ≤ b) (hb : b ≤ n) :
       Proven n (.enforceSequence sq ⟨a, b, st⟩)
+  | stopCodons (tbl : Nat) (tb : Gen.CodonTable) (ht : tableOf tbl = some tb) (a m : Nat) (st : Int) (hst : st ≠ -1)
+      (hb : a + 3 * m ≤ n) : Proven n (.stopCodons tbl ⟨a, (a + 3 * m : Nat), st⟩)
   | returnsSelf (b : BSpec Rat) (h : ∀ w, b.localized w none = .same) : Proven n b
 
 theorem proven_localSound (n : Nat) (b : BSpec Rat) (h : Proven n b) : C02.LocalSound n evB lzB iniB b := by
   cases h with
   | avoidChanges target a b st hst hab hb hlen => exact avoidChanges_localSound n target a b st hst hab hb hlen
   | enforceSequence sq a b st hst hab hb => exact enforceSequence_localSound n sq a b st hst hab hb
+  | stopCodons tbl tb ht a m st hst hb => exact stopCodons_localSound n tbl tb ht a m st hst hb
   | returnsSelf b h => exact same_localSound n b h
 
 /-- **C02, closed for the built-in model**: a problem whose (evaluated) constraints are AvoidChanges /
-    EnforceSequence regions on the forward strand and any specifications that localize to themselves
+    EnforceSequence / AvoidStopCodons regions on the forward strand and any specifications that localize to themselves
     (EnforceChoice, global GC bounds, edit budgets, …), with *any* objectives, on a well-formed
     mutation space: if all of them pass before `optimize()`, all of them pass after it — for every
     setting and every random tape, whether `optimize()` returns or raises. -/
